@@ -3,14 +3,14 @@ import json, os, random, re, shutil
 import vlib
 import factcommon as fc
 
-K = {"oligo-mmap": 4, "oligo-batch": 4, "oligo-stdin": 4, "cgr": 1, "ocgr": 3, "ocgr-counts": 3, "cov": 7, "ctr": 10,
+K = {"oligo-mmap": 4, "oligo-batch": 4, "oligo-stdin": 4, "oligo-mmap-H": 4, "oligo-batch-H": 4, "cov-alt": 7, "cgr": 1, "ocgr": 3, "ocgr-counts": 3, "cov": 7, "ctr": 10,
      "min-s2m-w0": 7, "min-s2m-w": 7, "min-m2s-w0": 7, "min-m2s-w": 7}
 MINW = 12
 
 
 def seq_of(shape, k, w, rng):
     clean = lambda n: "".join(rng.choice("ACGTacgtU") for _ in range(max(n, 0)))
-    return {"len0": "", "len1": rng.choice("ACGT"), "kminus1": clean(k - 1), "k": clean(k), "wminus1": clean(w - 1), "w": clean(w),
+    return {"len0": "", "len1": rng.choice("ACGT"), "oneN": "N", "kminus1": clean(k - 1), "k": clean(k), "wminus1": clean(w - 1), "w": clean(w),
             "allN": "N" * k, "Nfirst": "N" + clean(w), "Nlast": clean(w) + "N"}[shape]
 
 
@@ -18,20 +18,24 @@ def argv(s, inp, out):
     c, t = s["cmd"], ["-t", str(s["threads"])]
     if c.startswith("oligo"):
         a = ["comp", "oligo", "-i", "-" if c == "oligo-stdin" else inp, "-o", out, "-k", "4"] + t
-        return a + (["-c"] if c == "oligo-batch" else [])
+        return a + (["-c"] if c.startswith("oligo-batch") else []) + (["-H"] if c.endswith("-H") else [])
     if c == "cgr":
         return ["comp", "cgr", "-i", inp, "-o", out] + t
     if c.startswith("ocgr"):
         return ["comp", "cgr", "-i", inp, "-o", out, "-k", "3"] + t + (["-c"] if c == "ocgr-counts" else [])
     if c == "cov":
         return ["cov", "-i", inp, "-o", out, "-k", "7", "-s", "5", "-c", "5"] + t
+    if c == "cov-alt":
+        # the counting input is a separate file without any record
+        return ["cov", "-i", inp, "-a", inp + ".empty.fa", "-o", out, "-k", "7", "-s", "5", "-c", "5"] + t
     if c.startswith("min"):
         return ["min", "-i", inp, "-o", out, "-m", "7", "-w", str(0 if c.endswith("w0") else MINW), "-p", c.split("-")[1]] + t
     return ["ctr", "-i", inp, "-o", out, "-k", "10"] + t
 
 
 def result_file(s, out):
-    return {"cov": os.path.join(out, "kmers.vectors"), "ctr": os.path.join(out, "kmers.counts")}.get(s["cmd"], out)
+    return {"cov": os.path.join(out, "kmers.vectors"), "cov-alt": os.path.join(out, "kmers.vectors"),
+            "ctr": os.path.join(out, "kmers.counts")}.get(s["cmd"], out)
 
 
 def run(ctx):
@@ -51,7 +55,7 @@ def run(ctx):
         if m:
             scen.append(json.loads(json.loads('"' + m.group(1) + '"')))
     rng = random.Random(ctx.seed)
-    want = 6000 if ctx.thorough() else 900
+    want = 20000 if ctx.thorough() else 3400
     # always keep the empty file and the single-shape scenarios; sample the rest
     small = [s for s in scen if len(s["shapes"]) <= 1]
     big = [s for s in scen if len(s["shapes"]) > 1]
@@ -70,6 +74,7 @@ def run(ctx):
         with open(inp, "w") as f:
             for j, q in enumerate(seqs):
                 f.write(">r%d\n%s\n" % (j, q))
+        open(inp + ".empty.fa", "w").close()
         out = ctx.path("deg_out_%d" % i)
         if os.path.isdir(out):
             shutil.rmtree(out)
@@ -91,9 +96,14 @@ def run(ctx):
                 q = vlib.sh([vlib.KVH, "decode", "minout", inp, rf, s["cmd"].split("-")[1], str(0 if s["cmd"].endswith("w0") else MINW), "7"], timeout=60)
                 extra = ("min", q.stdout.decode())
             elif s["cmd"].startswith("oligo"):
-                q = vlib.sh([vlib.KVH, "decode", "oligo", inp, rf, "4", "0" if s["cmd"] == "oligo-batch" else "1", " ", "0", "cli-degenerate"], timeout=60)
+                q = vlib.sh([vlib.KVH, "decode", "oligo", inp, rf, "4", "0" if s["cmd"].startswith("oligo-batch") else "1", " ",
+                             "1" if s["cmd"].endswith("-H") else "0", "cli-degenerate"], timeout=60)
                 extra = ("oligo", q.stdout.decode())
-        for pth in (inp, out):
+            elif s["cmd"].startswith("ocgr"):
+                # frequencies of the k-mer CGR rows: all-zero where nothing can be computed, never NaN
+                q = vlib.sh([vlib.KVH, "decode", "ocgr", inp, rf, "3", "9", "0" if s["cmd"] == "ocgr-counts" else "1", "cli-degenerate"], timeout=60)
+                extra = ("oligo", q.stdout.decode())
+        for pth in (inp, inp + ".empty.fa", out):
             if os.path.isdir(pth):
                 shutil.rmtree(pth)
             elif os.path.exists(pth):
